@@ -30,7 +30,9 @@ func fd(m protoreflect.Message, name string) protoreflect.FieldDescriptor {
 	return f
 }
 
-func setStr(m protoreflect.Message, name, v string) { m.Set(fd(m, name), protoreflect.ValueOfString(v)) }
+func setStr(m protoreflect.Message, name, v string) {
+	m.Set(fd(m, name), protoreflect.ValueOfString(v))
+}
 func setI64(m protoreflect.Message, name string, v int64) {
 	m.Set(fd(m, name), protoreflect.ValueOfInt64(v))
 }
